@@ -65,7 +65,7 @@ CHECKS = {
         "Every statement the generator can produce with at most 2 (quick) / 3 (thorough) deviations from the default choice at its labelled choice "
         "points (statement kind x query form x FROM shape x relation kind x WHERE form x select-list form x tail, nesting <= 2), rendered under 7 "
         "(quick) / all 28 (thorough) sqlfluff dialects, is analysed by the real runner; sources and target must equal the reference exactly. "
-        "Two further balls with the same bound: around a union of two derived tables (alias re-use across branches), and around a path-bearing centre "
+        "Two further balls: one deviation around a union of two derived tables (alias re-use across branches), and two deviations around a path-bearing centre "
         "(COPY t FROM / COPY t TO / COPY (query) TO, INSERT OVERWRITE [LOCAL] DIRECTORY, files read in any FROM slot) under the dialects that have these forms. "
         "Exhaustive for the stated bound; compositions of two/three shapes are exactly where the suite is blind.",
         "Trusted: refsem.tables (reference semantics from the property text, self-tested); sqlfluff as the judge of which dialect accepts a text; "
